@@ -391,7 +391,7 @@ impl<'a> G<'a> {
     }
 
     fn boolean(&mut self, depth: usize) -> Option<E> {
-        let k = if depth == 0 { self.t.pick(2) } else { self.t.pick(14) };
+        let k = if depth == 0 { self.t.pick(2) } else { self.t.pick(16) };
         match k {
             0 => {
                 let b = self.t.chance(1, 2);
@@ -458,6 +458,33 @@ impl<'a> G<'a> {
                     _ => ("!?", !x.contains(&y)),
                 };
                 Some(E::combine(format!("{} {op} {}", atom(&a), atom(&b)), V::B(r), &[&a, &b], false))
+            }
+            14 | 15 => {
+                // floats as truth values: non-zero is true; an int or bool beside a float is
+                // promoted to float first (zero operands are made likely: `0.0 or x`)
+                let a = if self.t.chance(1, 3) { E::leaf("0.0".to_string(), V::F(0.0)) } else { self.float(depth - 1)? };
+                let x = as_f(&a.val) != 0.0;
+                if self.t.chance(1, 6) {
+                    return Some(E::combine(format!("not {}", atom(&a)), V::B(!x), &[&a], false));
+                }
+                let b = match self.t.pick(4) {
+                    0 => self.float(depth - 1)?,
+                    1 => self.int(depth - 1)?,
+                    2 => E::leaf("0".to_string(), V::I(0)),
+                    _ => self.boolean(depth - 1)?,
+                };
+                let y = match &b.val {
+                    V::F(f) => *f != 0.0,
+                    V::I(i) => *i != 0,
+                    v => as_b(v),
+                };
+                let (l, r, lx, rx) = if self.t.chance(1, 2) { (&a, &b, x, y) } else { (&b, &a, y, x) };
+                let (op, res) = match self.t.pick(3) {
+                    0 => ("and", lx && rx),
+                    1 => ("or", lx || rx),
+                    _ => ("&&", lx && rx),
+                };
+                Some(E::combine(format!("{} {op} {}", atom(l), atom(r)), V::B(res), &[&a, &b], false))
             }
             10 | 11 | 12 => {
                 let a = self.list(depth - 1)?;
